@@ -136,7 +136,15 @@ func autosaveRun(input string) string {
 	case "fail":
 		env = []string{"GROL_VERIF_FAILWRITE=" + f[1]}
 	}
-	stdout, killed, rc := runSelf(dir, env, "child-autosave", prog)
+	childArgs := []string{"child-autosave", prog}
+	oldLines := 0
+	if old != "none" {
+		oldLines = strings.Count(unhx(old), "\n")
+	}
+	if a, e, ok := autosaveHistArgs(prog, fault, oldLines); ok { // histories: autosave_hist.go
+		childArgs, env = a, e
+	}
+	stdout, killed, rc := runSelf(dir, env, childArgs...)
 	ret := strings.TrimSpace(stdout)
 	if killed {
 		ret = "killed"
@@ -279,4 +287,5 @@ func autosaveGen(tier string, r *rng, emit func(string)) {
 			cs(fmt.Sprintf("fail:%d:0", m+1)) // beyond the last write: no failure happens
 		}
 	}
+	autosaveHistGen(tier, r, emit) // the interrupted save is not the first thing the process does: autosave_hist.go
 }
